@@ -466,7 +466,10 @@ CLAIMS = {
          "trait owner x target type (named, primitive, Vec/Ref/tuple/array/function/dyn/generic instance over own, foreign or primitive "
          "arguments), in the root package and in libraries, in files with and without imports) compiled by the real pipeline::compile; accept/reject, graph error and "
          "set of diagnostic classes must equal the model's; a declarative oracle (package-level, from the property text) demands rejection "
-         "independently of the model; three permuted copies per world must agree.",
+         "independently of the model; three permuted copies per world must agree. Every world and every project of the C14 visibility catalogues "
+         "also goes through the other type-check entry points (typecheck_with_packages; typecheck_with_packages_and_results, the editor's own copy of the "
+         "dependency-environment loop, entered through main.gom and through a second file of Main): the verdict class must equal compile's (model-free "
+         "oracle entry-points-agree), the must-reject oracle and the model tie are applied to each entry point.",
     design_ref="§5 C16, §C16 — as built",
     note="Trusted: Lean kernel; source templates, message classification in harness/src/c16.rs; the declarative oracle in tools/props/c16.py. "
          "The typer's inference and trait-method dispatch are not modelled: a use is a reference form to a standard item. No defect found.",
@@ -502,12 +505,16 @@ CLAIMS = {
          "colon_colon_completions and the wasm-app wrappers return normally (catch_unwind + 5 s watchdog) on every prefix (token boundaries and "
          "mid-token) and token-level mutation of corpus, seed, generated and token-soup programs x every (line, col) incl. positions outside the "
          "text; that hover at every TAST identifier of an accepted program equals the TAST type (all pipeline corpus programs in the quick tier, plus the `late:*` family: every type constructor around an element whose type is resolved late, and the `latefix:*` family: the same values completed by an annotation, a later argument, the declared result type, a later branch or match arm); that hover on the initialiser EXPRESSION of every `let` of an accepted program and on its argument / item / operand sub-expressions (calls, literals, struct / tuple / array literals, closures, match, operators) equals the type of the corresponding TAST expression; that no hover answer at any swept position of an accepted program contains an inference variable; that a text and its line-ending twins (CRLF, mixed, blank lines, lone CR, no final newline, tabs, multi-byte text before the cursor) get identical hover/dot/`::` answers at corresponding positions; that every offered completion, inserted, does not "
-         "draw the diagnostic a non-existent name draws.",
+         "draw the diagnostic a non-existent name draws; that on multi-package projects (the first 300 worlds of the C16 generator and the C14 visibility "
+         "catalogues) the editor's type check gives the verdict class of the compiler's own (entry-points-agree), hover equals the type the COMPILE path "
+         "(typecheck_with_packages) assigned, `P::` offers nothing for a package the file does not import and every item offered after `P::` / `x.` type-checks "
+         "on the compile path when inserted.",
     design_ref="§5 C20, §C20 — as built",
     note="Trusted: Lean kernel; extract_query_glue (regex over query.rs); harness/src/c20.rs + crash.rs; line-index and rowan behave as modelled "
          "(diffed, not proved); token tiling of the tree (C12) is a hypothesis. Crash-freedom of lowering/hir/typer on erroneous programs is a search "
          "result over the explored texts only. Known findings: hover on shorthand struct fields/binders and on dyn-coerced variables; `::` completions "
-         "in an impl header.",
+         "in an impl header; dot completions offer the fields of a type whose package the user package does not import; hover finds no type for some "
+         "variables in a second file of a multi-file package Main.",
     technique="Lean 4 proof of the position logic + differential tie + crash/hang search (fault enumeration) + hover/completion differential against the compiler"),
  "C17": dict(
     category="proof",
